@@ -663,7 +663,7 @@ def run(res, tier, seed):
     rcombos = [(2, 1, bound), (2, 2, bound if tier == "thorough" else 1),
                (3, 1, 2 if tier == "thorough" else 1)]
     if tier == "thorough":
-        rcombos.append((3, 2, 2))
+        rcombos.append((3, 2, 1))
     ritems = []
     for (nt, no, b) in rcombos:
         st = rsa_combo((nt, no, b, seed, None))
